@@ -240,6 +240,8 @@ class Translator:
             env[st.name] = Closure(st, env, self, mod)
             return None
         if isinstance(st, ast.Raise):
+            if self.hooks.get("allow_raise"):
+                raise Raised(ast.unparse(st))
             raise Unmodelled("kernel path raises: %s" % ast.unparse(st))
         if isinstance(st, ast.With):
             # `with tf.name_scope(...)`-like blocks: execute the body
@@ -266,6 +268,8 @@ class Translator:
             obj = self.eval(t.value, env, mod, depth)
             if isinstance(obj, dict):
                 obj[t.attr] = v
+            elif isinstance(obj, SelfObj) and self.hooks.get("allow_attr_store"):
+                obj.attrs[t.attr] = v
             else:
                 raise Unmodelled("attribute store %s" % ast.unparse(t))
         else:
@@ -306,18 +310,16 @@ class Translator:
                 return not self.truth(v, n)
             raise Unmodelled("unary op")
         if isinstance(n, ast.BoolOp):
-            vals = [self.eval(x, env, mod, depth) for x in n.values]
-            if isinstance(n.op, ast.And):
-                r = True
-                for v in vals:
-                    r = v
-                    if not self.truth(v, n):
-                        return v
-                return r
-            for v in vals:
-                if self.truth(v, n):
+            # short-circuit evaluation, as in Python
+            v = None
+            for x in n.values:
+                v = self.eval(x, env, mod, depth)
+                t = self.truth(v, n)
+                if isinstance(n.op, ast.And) and not t:
                     return v
-            return vals[-1]
+                if isinstance(n.op, ast.Or) and t:
+                    return v
+            return v
         if isinstance(n, ast.Compare):
             left = self.eval(n.left, env, mod, depth)
             res = True
@@ -343,6 +345,13 @@ class Translator:
             return {_pykey(self.eval(k, env, mod, depth)): self.eval(v, env, mod, depth) for k, v in zip(n.keys, n.values)}
         if isinstance(n, (ast.ListComp, ast.GeneratorExp)):
             return self.comprehension(n, env, mod, depth)
+        if isinstance(n, ast.SetComp):
+            return PySet(self.comprehension(n, env, mod, depth))
+        if isinstance(n, ast.Set):
+            return PySet(self.eval(x, env, mod, depth) for x in n.elts)
+        if isinstance(n, ast.DictComp):
+            pairs = self.comprehension(n, env, mod, depth, pair=True)
+            return {_pykey(k): v for k, v in pairs}
         if isinstance(n, ast.Subscript):
             obj = self.eval(n.value, env, mod, depth)
             if is_arr(obj):
@@ -400,12 +409,15 @@ class Translator:
             return r[()]
         return r
 
-    def comprehension(self, n, env, mod, depth):
+    def comprehension(self, n, env, mod, depth, pair=False):
         out = []
 
         def rec(gens, e):
             if not gens:
-                out.append(self.eval(n.elt, e, mod, depth))
+                if pair:
+                    out.append((self.eval(n.key, e, mod, depth), self.eval(n.value, e, mod, depth)))
+                else:
+                    out.append(self.eval(n.elt, e, mod, depth))
                 return
             g = gens[0]
             it = self.eval(g.iter, e, mod, depth)
@@ -438,7 +450,8 @@ class Translator:
         if name in mod.toplevel_assign:
             return self.eval(mod.toplevel_assign[name], {}, mod, depth)
         if name in ("int", "float", "len", "range", "abs", "sum", "list", "tuple", "zip", "enumerate", "min", "max",
-                    "isinstance", "hasattr", "callable", "complex", "round", "pow", "print", "dict", "str", "sorted", "reversed", "bool", "type"):
+                    "isinstance", "hasattr", "callable", "complex", "round", "pow", "print", "dict", "str", "sorted", "reversed", "bool", "type",
+                    "set", "frozenset", "any", "all"):
             return Opaque("builtin." + name)
         return Opaque(name)
 
@@ -579,10 +592,65 @@ class Translator:
     def method_call(self, obj, name, args, kwargs, n, mod, depth):
         if isinstance(obj, (list, str, tuple)) and name == "index":
             return sp.Integer(obj.index(args[0]))
+        if isinstance(obj, PySet):
+            if name in ("add", "discard"):
+                getattr(obj, name)(args[0])
+                return None
+            if name == "remove":
+                if _pykey(args[0]) not in obj:
+                    raise Unmodelled("set.remove of a missing element (KeyError)")
+                obj.discard(args[0])
+                return None
+            if name == "update":
+                for a in args:
+                    for x in list(a):
+                        obj.add(x)
+                return None
+            if name in ("union", "difference", "intersection", "symmetric_difference"):
+                other = PySet(x for a in args for x in list(a))
+                if name == "union":
+                    return PySet(list(obj) + list(other))
+                if name == "difference":
+                    return PySet(x for x in obj if x not in other)
+                if name == "intersection":
+                    return PySet(x for x in obj if x in other)
+                return PySet([x for x in obj if x not in other] + [x for x in other if x not in obj])
+            if name == "copy":
+                return PySet(obj)
+            if name in ("issubset", "issuperset"):
+                other = PySet(list(args[0]))
+                return all(x in other for x in obj) if name == "issubset" else all(x in obj for x in other)
+            raise Unmodelled("set method %s" % name)
         if isinstance(obj, list):
             if name == "append":
                 obj.append(args[0])
                 return None
+            if name == "extend":
+                obj.extend(list(args[0]))
+                return None
+            if name == "copy":
+                return list(obj)
+            if name == "remove":
+                ks = [_pykey(x) for x in obj]
+                if _pykey(args[0]) not in ks:
+                    raise Unmodelled("list.remove of a missing element (ValueError)")
+                del obj[ks.index(_pykey(args[0]))]
+                return None
+            if name == "pop":
+                return obj.pop(*[_pyint(a) for a in args])
+            if name == "insert":
+                obj.insert(_pyint(args[0]), args[1])
+                return None
+            if name == "reverse" and not args:
+                obj.reverse()
+                return None
+            if name == "sort" and not args and not kwargs:
+                if all((is_sym(x) and x.is_number) or isinstance(x, (int, float, str)) for x in obj):
+                    obj.sort()
+                    return None
+                raise Unmodelled("sort of symbolic values")
+        if isinstance(obj, dict) and name == "setdefault":
+            return obj.setdefault(_pykey(args[0]), args[1] if len(args) > 1 else None)
         if isinstance(obj, dict):
             if name == "get":
                 return obj.get(_pykey(args[0]), args[1] if len(args) > 1 else None)
@@ -599,6 +667,8 @@ class Translator:
                 return obj
             if name == "conjugate":
                 return sp.conjugate(obj)
+            if name in ("doit", "evalf", "simplify", "expand"):
+                return obj
             if name == "subs":
                 return obj.subs(args[0])
         if isinstance(obj, Mod):
@@ -631,7 +701,16 @@ class Translator:
                 tot = tot + x
             return tot
         if name in ("list", "tuple"):
+            if a0 is None:
+                return [] if name == "list" else ()
             return list(a0) if name == "list" else tuple(a0)
+        if name in ("set", "frozenset"):
+            if a0 is not None and not isinstance(a0, (list, tuple, range, dict, str)):
+                raise Unmodelled("set() of a symbolic value")
+            return PySet(a0 if a0 is not None else ())
+        if name in ("any", "all"):
+            vals = [self.truth(x) for x in list(a0)]
+            return any(vals) if name == "any" else all(vals)
         if name == "zip":
             return list(zip(*[list(x) for x in args]))
         if name == "enumerate":
@@ -812,6 +891,18 @@ class Translator:
             if isinstance(op, ast.MatMult):
                 return np.dot(A, B)
             raise Unmodelled("array operator %s" % type(op).__name__)
+        if isinstance(a, PySet) and isinstance(b, PySet):
+            if isinstance(op, ast.Sub):
+                return PySet(x for x in a if x not in b)
+            if isinstance(op, ast.BitOr):
+                return PySet(list(a) + list(b))
+            if isinstance(op, ast.BitAnd):
+                return PySet(x for x in a if x in b)
+            if isinstance(op, ast.BitXor):
+                return PySet([x for x in a if x not in b] + [x for x in b if x not in a])
+            raise Unmodelled("set operator %s" % type(op).__name__)
+        if isinstance(a, PySet) or isinstance(b, PySet):
+            raise Unmodelled("set combined with a non-set")
         if isinstance(a, (list, tuple)) or isinstance(b, (list, tuple)):
             if isinstance(op, ast.Add) and type(a) == type(b):
                 return a + b
@@ -842,6 +933,8 @@ class Translator:
         if isinstance(op, ast.Mod):
             if a.is_number and b.is_number:
                 return a % b
+            if self.hooks.get("binop:Mod"):
+                return self.hooks["binop:Mod"](self, a, b)
             raise Unmodelled("modulo of symbolic values")
         raise Unmodelled("operator %s" % type(op).__name__)
 
@@ -874,6 +967,30 @@ class Translator:
         if rel is sp.false:
             return False
         return rel
+
+
+class PySet(list):
+    """python-level set of hashable keys, kept in insertion order so that interpretation is deterministic
+    (order-sensitivity of set iteration is the business of the E4 rule, not of this interpreter)"""
+
+    def __init__(self, items=()):
+        super().__init__()
+        for x in items:
+            self.add(x)
+
+    def add(self, x):
+        k = _pykey(x)
+        if k not in self:
+            self.append(k)
+
+    def discard(self, x):
+        k = _pykey(x)
+        if k in self:
+            list.remove(self, k)
+
+
+class Raised(Exception):
+    """the interpreted path executes a `raise` (only when the hook "allow_raise" is set)"""
 
 
 class SelfObj:
